@@ -9,7 +9,7 @@
 EXTENDS DataPlane, Json
 
 CONSTANT Depth
-VARIABLES hist, script
+VARIABLES hist, script, handed, legal      \* handed / legal: which sync frames of the honest sender can exist (see MC_RecvSync.tla)
 
 RelP(x) == IF x = None THEN -1 ELSE PSub(x, PBase0)
 RelF(x) == IF x = None THEN -1 ELSE FSub(x, FBase0)
@@ -27,7 +27,12 @@ Proj == [rfBase |-> RelF(rfBase), ackq |-> Len(ackq), rBase |-> RelP(rBase), rEn
 GenInit ==
     /\ script \in Scripts
     /\ InitWith([i \in 1..N |-> [ch |-> script[i].ch, mode |-> script[i].mode, nf |-> 1]])
-    /\ hist = <<>>
+    /\ hist = <<>> /\ handed = {} /\ legal = {}
+
+(* sync(k) offers the id after packet k: possible once every Reliable packet up to k has been handed over and nothing beyond k has *)
+PossibleNow(h, k) == /\ \A i \in 1..k : script[i].mode = "R" => i \in h
+                     /\ \A i \in (k + 1)..N : i \notin h
+                     /\ \E i \in 1..k : script[i].mode # "R" \/ i \in h
 
 FrameOut(f) == [pid |-> RelP(f.pid), ch |-> f.ch, wpl |-> f.wpl, cpl |-> f.cpl, uid |-> f.uid]
 
@@ -38,10 +43,17 @@ GenNext ==
             /\ HandleData(Frame(i))
             /\ UNCHANGED <<submitted, delivered, sender, netD, netA, faults>>
             /\ hist' = Append(hist, [op |-> "rdeliver", f |-> FrameOut(Frame(i)), want |-> Proj'])
+            /\ handed' = handed \cup {i}
+            /\ legal' = legal \cup {k \in 1..N : PossibleNow(handed \cup {i}, k)}
        \/ /\ Receive
           /\ hist' = Append(hist, [op |-> "receive", want |-> Proj'])
+          /\ UNCHANGED <<handed, legal>>
+       \/ \E k \in legal :        \* a sync frame of the sender, at any later time (stale, duplicated, after newer data)
+            /\ HandleSync([t |-> "S", nfid |-> None, npid |-> PAdd(PBase0, k)])
+            /\ UNCHANGED <<submitted, delivered, sender, netD, netA, faults, handed, legal>>
+            /\ hist' = Append(hist, [op |-> "rsync", npid |-> k, want |-> Proj'])
 
-GenSpec == GenInit /\ [][GenNext]_<<vars, hist, script>>
+GenSpec == GenInit /\ [][GenNext]_<<vars, hist, script, handed, legal>>
 
 Emit == Len(hist) = Depth => PrintT(<<"SCHED", ToJson([ops |-> hist, kind |-> "recv", script |-> script,
             cfg |-> [PW |-> PW, FW |-> FW, PMod |-> PMod, FMod |-> FMod, PBase0 |-> PBase0, FBase0 |-> FBase0, TxAlloc |-> TxAlloc, RxAlloc |-> RxAlloc, Keepalive |-> FALSE]])>>)
